@@ -372,7 +372,8 @@ type Store struct {
 
 	strongReadTerm atomic.Uint64 // Term of most recent Strong Read
 
-	dbModifiedTime *rsync.AtomicTime // Last time the database file was modified.
+	dbModifiedTime  *rsync.AtomicTime // Last time the database file was modified.
+	numLoadsApplied atomic.Uint64     // Number of database loads applied since the Store opened.
 
 	// Latest log entry index which actually changed the database.
 	dbAppliedIdx  atomic.Uint64
@@ -2625,6 +2626,7 @@ func (s *Store) fsmApply(l *raft.Log) (e any) {
 		s.numNoops.Add(1)
 	case proto.Command_COMMAND_TYPE_LOAD:
 		// Swapping in a new database invalidates any existing snapshot.
+		s.numLoadsApplied.Add(1)
 		if err := s.snapshotStore.SetDueNext(snapshot.Full); err != nil {
 			s.logger.Fatalf("failed to set full snapshot needed: %s", err)
 		}
@@ -2814,6 +2816,7 @@ func (s *Store) fsmSnapshot() (fSnap raft.FSMSnapshot, retErr error) {
 	stats.Add(numSnapshots, 1)
 	dur := time.Since(startT)
 	stats.Get(snapshotCreateDuration).(*expvar.Int).Set(dur.Milliseconds())
+	loadsAtSnapshot := s.numLoadsApplied.Load()
 	var fs FSMSnapshot
 	fs = FSMSnapshot{
 		Type:        dueNext,
@@ -2823,6 +2826,14 @@ func (s *Store) fsmSnapshot() (fSnap raft.FSMSnapshot, retErr error) {
 		// in the Snapshot Store the fingerprint will not be trusted at restart.
 		Finalizer: func() error { return s.createSnapshotFingerprint(fs.sinkID) },
 		OnRelease: func(invoked, succeeded bool) {
+			if s.numLoadsApplied.Load() != loadsAtSnapshot {
+				// A database was loaded after this snapshot was taken. If this snapshot was
+				// installed in the Snapshot Store it cleared the request for a full snapshot
+				// made by that load, though it does not contain the loaded database.
+				if err := s.snapshotStore.SetDueNext(snapshot.Full); err != nil {
+					s.logger.Fatalf("failed to set full snapshot needed after load during snapshot: %s", err)
+				}
+			}
 			if !invoked {
 				s.logger.Printf("persisting %s snapshot was not invoked on node ID %s", dueNext, s.raftID)
 				// The WAL staging directory, if it has anything, will not have changed, so the WAL files
